@@ -321,6 +321,12 @@ def run_impl(component, ops_text, variant="asan", timeout=600, stateless=False, 
         if not stateless:
             out.extend(["skipped-after-fault"] * (len(ops) - pos))
             break
+        if err == "TIMEOUT":
+            timeouts = locals().get("timeouts", 0) + 1
+            if timeouts >= 2:
+                # a second hang: do not spend another watchdog period on every remaining operation
+                out.extend(["skipped-after-repeated-timeouts"] * (len(ops) - pos))
+                break
         if restarts > 200:
             out.extend(["skipped-too-many-faults"] * (len(ops) - pos))
             break
